@@ -59,3 +59,31 @@ def cases(max_ops, prologue=None, with_past=True, min_ops=8):
         st.lists(st.sampled_from(WEIGHTS), min_size=1, max_size=6),
         st.lists(chunk, min_size=min_ops, max_size=max_ops),
         epilogue)
+
+
+# ----------------------------------------------------------------- float-noise profile (non-dyadic times)
+NOISE = [0.1, 0.2, 0.3, 0.7, 0.8, 1.1, 1.3, 2.3, 2.6, 3.6, 6.2, 6.7, 1 / 3]
+
+
+def pause_at_due_instant():
+    """An event that is due in the very instant its asset gets paused (a higher-priority event of that instant pauses
+    the asset); the asset is resumed from inside an event whose due time is an independent decimal literal."""
+    lit = st.integers(1, 99).map(lambda k: k / 10)
+
+    def build(a, p, gap, lo, hi):
+        n = round(p + gap, 1)
+        return [['sa', a, p, lo, []], ['sa', 3, p, hi, [['p', a]]], ['sa', 3, n, 6, [['u', a]]]]
+    return st.builds(build, st.sampled_from([1, 2]), lit, lit, st.sampled_from([2, 3, 5]), st.sampled_from([8, 10, 11.5]))
+
+
+def noise_cases(max_chunks):
+    d = st.sampled_from(NOISE)
+    lit = st.integers(1, 150).map(lambda k: k / 10)
+    sched = st.tuples(st.just('sa'), sched_asset, lit, prio, st.just([])).map(list).map(lambda o: [o])
+    rel = st.tuples(st.just('s'), sched_asset, d, prio, st.just([])).map(list).map(lambda o: [o])
+    simple = st.one_of(st.tuples(st.just('p'), asset), st.tuples(st.just('u'), asset)).map(list).map(lambda o: [o])
+    run = st.tuples(st.just('run'), d).map(list).map(lambda o: [o])
+    chunk = st.one_of(sched, sched, rel, simple, run, pause_at_due_instant(), pause_at_due_instant())
+    return st.builds(lambda w, chunks: {'weights': w, 'noise': True, 'ops': [o for c in chunks for o in c] + [['run', 21.3]]},
+                     st.lists(st.sampled_from(WEIGHTS), min_size=1, max_size=4),
+                     st.lists(chunk, min_size=3, max_size=max_chunks))
